@@ -60,9 +60,10 @@ def all_scopes(repo: Repo):
 
 
 class Ownership:
-    def __init__(self, repo: Repo, depth: int = 5):
+    def __init__(self, repo: Repo, depth: int = 5, max_candidates: int = 6):
         self.repo = repo
         self.depth = depth
+        self.max_candidates = max_candidates
         self._dfs: dict[int, DataFlow] = {}
         self._nested: Optional[dict[str, list[FuncInfo]]] = None
         self._methods: Optional[dict[str, list[FuncInfo]]] = None
@@ -103,7 +104,7 @@ class Ownership:
             root = (dotted(e.func.value) or "").split(".")[0]
             if root not in ("np", "xp", "cp", "numpy", "cupy", "da", "dask", "scipy", "math", "pd"):
                 ms = [m for m in self._methods.get(e.func.attr, []) if not m.is_abstract]
-                if 1 <= len(ms) <= 6:
+                if 1 <= len(ms) <= self.max_candidates:
                     return ms, True
         return [], False
 
